@@ -146,6 +146,11 @@ type Exec struct {
 
 	symbolicSeen bool
 	provedN      int
+	cpus         int
+	satSeen      map[string]int
+	splitSecs    float64
+	SplitBudgetSecs float64 // cumulative case-split time per task after which undecided queries stay undecided
+	refineSecs   float64 // time spent making counterexamples replayable (bounded per task)
 	Extra        map[string]float64 // per-path additions to every model (hints for the native replay)
 	fnStack      []string
 	stubs        map[string]value
@@ -200,6 +205,7 @@ func (ex *Exec) newPath() {
 	ex.ios = nil
 	ex.Extra = map[string]float64{}
 	ex.provedN = 0
+	ex.cpus = 0
 	ex.stubs = map[string]value{}
 	ex.inStub = map[string]bool{}
 	ex.stubInner = map[string]bool{}
@@ -283,6 +289,11 @@ func (ex *Exec) querySplit(extra *smt.Term, wantModel bool) smt.Result {
 		return r
 	}
 	ex.monoUnknown++
+	if lim := ex.SplitBudgetSecs; lim > 0 && ex.splitSecs > lim {
+		r.Err = "case-split budget of this task exhausted"
+		return r // stays unknown: reported as undecided
+	}
+	defer func(t time.Time) { ex.splitSecs += time.Since(t).Seconds() }(time.Now())
 	roots := make([]*smt.Term, 0, len(ex.pc)+len(ex.defs)+1)
 	roots = append(roots, ex.defs...)
 	roots = append(roots, ex.pc...)
@@ -365,21 +376,23 @@ func (ex *Exec) querySplit(extra *smt.Term, wantModel bool) smt.Result {
 // them, else greedily one by one); the refined model is used only if the query
 // stays sat, so nothing is lost and no proof ever depends on a soft fact.
 func (ex *Exec) refinePrefer(extra *smt.Term, first smt.Result) smt.Result {
-	if len(ex.C.Prefer) == 0 || first.Status != "sat" {
+	if len(ex.C.Prefer) == 0 || first.Status != "sat" || ex.refineSecs > 20 {
 		return first
 	}
+	t0 := time.Now()
+	defer func() { ex.refineSecs += time.Since(t0).Seconds() }()
 	c := ex.C
 	all := append([]*smt.Term{extra}, c.Prefer...)
-	if r := ex.query(c.And(all...), true, ex.QuickMs, ex.QuickMs); r.Status == "sat" {
+	if r := ex.query(c.And(all...), true, 1000, 1000); r.Status == "sat" {
 		return r
 	}
-	if len(c.Prefer) > 24 {
-		return first
-	}
 	cur, acc := first, []*smt.Term{extra}
-	for _, p := range c.Prefer {
+	for i, p := range c.Prefer {
+		if i >= 12 || time.Since(t0).Seconds() > 6 {
+			break
+		}
 		try := append(append([]*smt.Term{}, acc...), p)
-		if r := ex.query(c.And(try...), true, ex.QuickMs/2, ex.QuickMs/2); r.Status == "sat" {
+		if r := ex.query(c.And(try...), true, 400, 400); r.Status == "sat" {
 			cur, acc = r, try
 		}
 	}
@@ -1136,8 +1149,17 @@ func (ex *Exec) flush() {
 		ob := pend[i].ob
 		neg := ex.C.Not(pend[i].cond)
 		r := ex.querySplit(neg, true)
-		r = ex.refinePrefer(neg, r)
-		r = ex.refineTrig(neg, r)
+		if r.Status == "sat" {
+			// only the first witnesses per assertion are replayed: refine only those
+			if ex.satSeen == nil {
+				ex.satSeen = map[string]int{}
+			}
+			ex.satSeen[ob.Msg]++
+			if ex.satSeen[ob.Msg] <= 3 && len(ex.satSeen) <= 12 {
+				r = ex.refinePrefer(neg, r)
+				r = ex.refineTrig(neg, r)
+			}
+		}
 		ob.Status, ob.Solver, ob.Secs, ob.Err = r.Status, r.Solver, r.Secs, r.Err
 		ob.Nodes = smt.Size(append(append([]*smt.Term{neg}, ex.pc...), ex.defs...)...)
 		if r.Status == "sat" {
